@@ -36,6 +36,7 @@ VARIABLES
   stored,     \* sids under which a SetTokenResponse succeeded
   gone,       \* sids on which a RemoveSession reached the store, or that a faulty store call touched
   bound,      \* sid -> id-token symbols that a SetTokenResponse stored under it
+  lastStored, \* sid -> the tokens most recently stored under it (absent while unknown: after a faulty write or a removal)
   attok,      \* access-token symbol -> ground-truth expiry (-1 = the provider did not say)
   chk,        \* check number -> [req, evs] for checks in flight
   br,         \* browser -> [active, authorizeAnswers, okSeen] for C03 flows
@@ -43,7 +44,7 @@ VARIABLES
   drift,      \* Layer-B expectation mismatches (spec drift, not violations)
   fired       \* monitor name -> how often its antecedent was true (anti-vacuity)
 
-vars == <<l, now, sc, flt, logins, presented, consumed, dead, codes, idtok, rtl, latest, lastUse, stored, gone, bound, attok, chk, br, viol, drift, fired>>
+vars == <<l, now, sc, flt, logins, presented, consumed, dead, codes, idtok, rtl, latest, lastUse, stored, gone, bound, lastStored, attok, chk, br, viol, drift, fired>>
 
 ---------------------------------------------------------------------------
 Put(f, k, v) == [x \in (DOMAIN f) \cup {k} |-> IF x = k THEN v ELSE f[x]]
@@ -286,6 +287,7 @@ C11IdpCauses(n, e) ==
     \cup (IF Has(rtl, e.rt) /\ Has(latest, rtl[e.rt].family) /\ latest[rtl[e.rt].family] # e.rt
           THEN {"stale-refresh-token-used"} ELSE {})
     \cup (IF e.clientId # ("cid:" \o e.f) \/ e.clientSecret # ("sec:" \o e.f) THEN {"wrong-client-auth-on-refresh"} ELSE {})
+    \cup (IF \E i \in DOMAIN Evs(n) : Evs(n)[i].e.ev = "idp" /\ Evs(n)[i].e.grant = "refresh_token" THEN {"second-refresh-exchange-in-one-check"} ELSE {})
 
 ExpectedMerge(old, iss, t) ==
   [ id |-> IF iss.id.ex THEN iss.id.sym ELSE old.id,
@@ -398,11 +400,25 @@ Tag(p, m, causes, n) == {V(p, m, c, n) : c \in causes}
 
 \* Checks whose request was deformed at protobuf level (Shapes) or that received a token-endpoint body from the
 \* odd-body grammar have no meaningful abstract kind / answer class: only C14 and C15 judge them.
-Opaque(n) == Req(n).shape # "none" \/ \E i \in DOMAIN Evs(n) : Evs(n)[i].e.ev = "idp" /\ Evs(n)[i].e.answer = "odd"
+Shaped(n)  == Req(n).shape # "none"
+OddBody(n) == \E i \in DOMAIN Evs(n) : Evs(n)[i].e.ev = "idp" /\ Evs(n)[i].e.answer = "odd"
+Opaque(n)  == Shaped(n) \/ OddBody(n)
+
+\* C01 for a check that received a body of the odd-body grammar: an answer that is not a token response at all (not a JSON
+\* object with token_type bearer: null, an array, {}, an error document) is not a successful exchange, so an OK needs
+\* tokens that were fresh when read.  (A token response that omits members keeps the stored ones: C11.)
+C01OddCauses(n, r) ==
+  IF Outcome(r) # "ok" \/ Shaped(n) THEN {}
+  ELSE IF Len(TokReads(n)) = 0 THEN {"ok-without-token-read"}
+  ELSE IF Fresh(TokReads(n)[1].e.res, r.f, TokReads(n)[1].at) THEN {}
+  ELSE IF \E i \in DOMAIN Evs(n) : Evs(n)[i].e.ev = "idp" /\ Evs(n)[i].e.answer = "odd" /\ ~Evs(n)[i].e.shaped
+       THEN {"ok-after-an-answer-that-is-not-a-token-response"} ELSE {}
 
 RespViol(n, r) ==
-  IF Opaque(n) THEN Tag("C14", "NoLeak", C14RespCauses(n, r), n) \cup Tag("C15", "NoCrash", C15RespCauses(n, r), n) ELSE
+  IF Opaque(n) THEN Tag("C14", "NoLeak", C14RespCauses(n, r), n) \cup Tag("C15", "NoCrash", C15RespCauses(n, r), n)
+                    \cup (IF OddBody(n) THEN Tag("C01", "OkJustified", C01OddCauses(n, r), n) ELSE {}) ELSE
        Tag("C01", "OkJustified", C01Causes(n, r), n)
+  \cup Tag("C01", "OkJustified", {"ok-for-a-session-beyond-its-timeouts:" \o c : c \in C10RespCauses(n, r)}, n)
   \cup Tag("C03", "NoRelogin", C03RespCauses(n, r), n)
   \cup Tag("C10", "NotDroppedEarly", C10DropCauses(n, r), n)
   \cup (IF Cardinality(DOMAIN flt) > 1
@@ -422,15 +438,26 @@ RespViol(n, r) ==
   \cup Tag("C15", "NoCrash", C15RespCauses(n, r), n)
   \cup Tag("C18", "HonouredOnlyByCreator", C18RespCauses(n, r), n)
 
+C11StoreCauses(n, e) ==
+  IF e.op = "GetTokenResponse" /\ ~e.err /\ e.res.ex /\ Has(lastStored, e.sid) /\ ~chk[n].ovl
+     /\ (e.res.id # lastStored[e.sid].id \/ e.res.at # lastStored[e.sid].at \/ e.res.rt # lastStored[e.sid].rt)
+  THEN {"later-check-does-not-see-the-stored-result"} ELSE {}
+
 StoreViol(n, e) ==
   IF Opaque(n) THEN {} ELSE
+       Tag("C11", "RefreshMerge", C11StoreCauses(n, e), n) \cup
        Tag("C02", "BoundOnlyIfValid", C02StoreCauses(n, e), n)
   \cup Tag("C04", "CodeConsumed", C04StoreCauses(n, e), n)
   \cup Tag("C05", "TokensOnlyUnderIssued", C05StoreCauses(n, e), n)
   \cup Tag("C09", "LoggedOutStaysDead", C09StoreCauses(n, e), n)
 
+(* C19 -- a token request made after a reconcile uses the Secret's current value *)
+C19IdpCauses(n, e) ==
+  IF flt[e.f].secretRef /\ e.clientSecret # ("sec:" \o e.f) THEN {"token-request-does-not-use-the-current-secret:" \o e.clientSecret} ELSE {}
+
 IdpViol(n, e) ==
   IF Opaque(n) \/ e.answer = "odd" THEN {} ELSE
+       Tag("C19", "CurrentSecretAtTokenEndpoint", C19IdpCauses(n, e), n) \cup
        Tag("C04", "ExchangeBound", C04IdpCauses(n, e), n)
   \cup Tag("C11", "RefreshUsesLatest", C11IdpCauses(n, e), n)
   \cup Tag("C18", "OwnCredentials", C18IdpCauses(n, e), n)
@@ -441,6 +468,8 @@ IdpViol(n, e) ==
    SPECIFICATION DRIFT (the code no longer follows the specification rung by rung); it is counted, never a violation. *)
 Lbl(e) == IF e.ev = "store" THEN "S:" \o e.op ELSE IF e.ev = "idp" THEN "I:" \o e.grant ELSE IF e.ev = "jwks" THEN "J" ELSE "R:" \o Outcome(e)
 
+\* a chain whose OIDC filter is followed by a denying mock filter answers with that denial where the OIDC filter says OK
+OkLbl(q) == IF flt[q.f].afterDeny THEN "R:deny" ELSE "R:ok"
 OnRefreshPath(n) == \E i \in DOMAIN Evs(n) : Evs(n)[i].e.ev = "idp" /\ Evs(n)[i].e.grant = "refresh_token"
 
 NextAllowed(n) ==
@@ -463,7 +492,7 @@ NextAllowed(n) ==
         [] l0 = "S:GetTokenResponse" ->
              IF e.err THEN {"R:sessionError"}
              ELSE IF ~e.res.ex THEN {"S:RemoveSession"}
-             ELSE IF Fresh(e.res, q.f, x.at) THEN {"R:ok"}
+             ELSE IF Fresh(e.res, q.f, x.at) THEN {OkLbl(q)}
              ELSE IF e.res.rt = "none" THEN {"S:RemoveSession"} ELSE {"I:refresh_token"}
         [] l0 = "I:refresh_token" -> IF e.answer = "ok" THEN {"S:GetAuthorizationState"} ELSE {"S:RemoveSession"}
         [] l0 = "S:GetAuthorizationState" ->
@@ -477,7 +506,7 @@ NextAllowed(n) ==
              IF OnRefreshPath(n) THEN (IF e.res = "err" THEN {"S:RemoveSession"} ELSE {"S:SetTokenResponse", "S:RemoveSession"})
              ELSE (IF e.res = "err" THEN {"R:deny"} ELSE {"S:ClearAuthorizationState", "R:deny"})
         [] l0 = "S:ClearAuthorizationState" -> IF e.err THEN {"R:sessionError"} ELSE {"S:SetTokenResponse"}
-        [] l0 = "S:SetTokenResponse" -> IF e.err THEN {"R:sessionError"} ELSE IF OnRefreshPath(n) THEN {"R:ok"} ELSE {"R:app"}
+        [] l0 = "S:SetTokenResponse" -> IF e.err THEN {"R:sessionError"} ELSE IF OnRefreshPath(n) THEN {OkLbl(q)} ELSE {"R:app"}
         [] OTHER -> {}
 
 \* the drift record of an event that does not follow the ladder (empty set when it does, or when the check is opaque)
@@ -489,7 +518,7 @@ RungDrift(n, e) ==
 Init ==
   /\ l = 1 /\ now = 0 /\ sc = "none"
   /\ flt = <<>> /\ logins = <<>> /\ presented = {} /\ consumed = {} /\ dead = <<>>
-  /\ codes = <<>> /\ idtok = <<>> /\ rtl = <<>> /\ latest = <<>> /\ lastUse = <<>> /\ stored = {} /\ gone = {} /\ bound = <<>> /\ attok = <<>>
+  /\ codes = <<>> /\ idtok = <<>> /\ rtl = <<>> /\ latest = <<>> /\ lastUse = <<>> /\ stored = {} /\ gone = {} /\ bound = <<>> /\ lastStored = <<>> /\ attok = <<>>
   /\ chk = <<>> /\ br = <<>> /\ viol = {} /\ drift = {} /\ fired = <<>>
 
 E == Trace[l]
@@ -500,14 +529,14 @@ Reset ==
   /\ flt' = [name \in {E.filters[i].name : i \in DOMAIN E.filters} |->
                (CHOOSE f \in RangeS(E.filters) : f.name = name)]
   /\ logins' = <<>> /\ presented' = {} /\ consumed' = {} /\ dead' = <<>>
-  /\ codes' = <<>> /\ idtok' = <<>> /\ rtl' = <<>> /\ latest' = <<>> /\ lastUse' = <<>> /\ stored' = {} /\ gone' = {} /\ bound' = <<>> /\ attok' = <<>>
+  /\ codes' = <<>> /\ idtok' = <<>> /\ rtl' = <<>> /\ latest' = <<>> /\ lastUse' = <<>> /\ stored' = {} /\ gone' = {} /\ bound' = <<>> /\ lastStored' = <<>> /\ attok' = <<>>
   /\ chk' = <<>> /\ br' = <<>>
   /\ fired' = Bump(fired, "scenarios")
   /\ UNCHANGED <<viol, drift>>
 
 Clock ==
   /\ E.ev = "clock" /\ now' = E.now
-  /\ UNCHANGED <<sc, flt, logins, presented, consumed, dead, codes, idtok, rtl, latest, lastUse, stored, gone, bound, attok, chk, br, viol, drift, fired>>
+  /\ UNCHANGED <<sc, flt, logins, presented, consumed, dead, codes, idtok, rtl, latest, lastUse, stored, gone, bound, lastStored, attok, chk, br, viol, drift, fired>>
 
 Skip ==
   /\ E.ev \in {"noop", "end", "keyset", "authz"}
@@ -515,14 +544,14 @@ Skip ==
               THEN Put(codes, E.code, [sid |-> E.sid, challenge |-> E.challenge, clientId |-> E.clientId,
                                        redirectUri |-> E.redirectUri, used |-> FALSE])
               ELSE codes
-  /\ UNCHANGED <<now, sc, flt, logins, presented, consumed, dead, idtok, rtl, latest, lastUse, stored, gone, bound, attok, chk, br, viol, drift, fired>>
+  /\ UNCHANGED <<now, sc, flt, logins, presented, consumed, dead, idtok, rtl, latest, lastUse, stored, gone, bound, lastStored, attok, chk, br, viol, drift, fired>>
 
 ReqEv ==
   /\ E.ev = "req"
   \* a check that shares any part of its lifetime with another check is marked as overlapped (ovl)
   /\ chk' = Put([k \in DOMAIN chk |-> [chk[k] EXCEPT !.ovl = TRUE]], E.n, [req |-> E, evs |-> <<>>, ovl |-> DOMAIN chk # {}])
   /\ presented' = IF E.cookie = "none" THEN presented ELSE presented \cup {E.cookie}
-  /\ UNCHANGED <<now, sc, flt, logins, consumed, dead, codes, idtok, rtl, latest, lastUse, stored, gone, bound, attok, br, viol, drift, fired>>
+  /\ UNCHANGED <<now, sc, flt, logins, consumed, dead, codes, idtok, rtl, latest, lastUse, stored, gone, bound, lastStored, attok, br, viol, drift, fired>>
 
 Note(n) == [chk EXCEPT ![n].evs = Append(@, [e |-> E, at |-> now, i |-> l])]
 
@@ -540,6 +569,9 @@ StoreEv ==
              THEN [dead EXCEPT ![E.sid].by = E.op \o "@" \o Req(E.n).kind] ELSE dead
   /\ bound' = IF E.op = "SetTokenResponse" /\ E.fault # "before" /\ E.arg.ex
               THEN Put(bound, E.sid, (IF Has(bound, E.sid) THEN bound[E.sid] ELSE {}) \cup {E.arg.id}) ELSE bound
+  /\ lastStored' = IF E.op = "SetTokenResponse" /\ E.fault = "none" /\ ~E.err THEN Put(lastStored, E.sid, E.arg)
+                   ELSE IF E.op \in {"SetTokenResponse", "RemoveSession"} \/ E.err THEN Del(lastStored, E.sid)
+                   ELSE lastStored
   /\ stored' = IF E.op = "SetTokenResponse" /\ E.fault = "none" /\ ~E.err THEN stored \cup {E.sid} ELSE stored
   /\ gone' = IF (E.op = "RemoveSession" /\ E.fault # "before") \/ E.err THEN gone \cup {E.sid} ELSE gone
   /\ UNCHANGED <<now, sc, flt, logins, presented, consumed, codes, idtok, rtl, lastUse, attok, br>>
@@ -556,13 +588,13 @@ IdpEv ==
   /\ attok' = IF E.issued.ex /\ E.issued.at.ex
               THEN Put(attok, E.issued.at.sym, IF E.issued.expiresIn > 0 THEN now + E.issued.expiresIn ELSE -1) ELSE attok
   /\ fired' = Bump(fired, "idp:" \o E.grant \o ":" \o E.answer)
-  /\ UNCHANGED <<now, sc, flt, logins, presented, consumed, dead, codes, latest, lastUse, stored, gone, bound, br>>
+  /\ UNCHANGED <<now, sc, flt, logins, presented, consumed, dead, codes, latest, lastUse, stored, gone, bound, lastStored, br>>
 
 JwksEv ==
   /\ E.ev = "jwks"
   /\ chk' = Note(E.n)
   /\ drift' = drift \cup RungDrift(E.n, E)
-  /\ UNCHANGED <<now, sc, flt, logins, presented, consumed, dead, codes, idtok, rtl, latest, lastUse, stored, gone, bound, attok, br, viol, fired>>
+  /\ UNCHANGED <<now, sc, flt, logins, presented, consumed, dead, codes, idtok, rtl, latest, lastUse, stored, gone, bound, lastStored, attok, br, viol, fired>>
 
 RespEv ==
   /\ E.ev = "resp"
@@ -594,7 +626,7 @@ RespEv ==
                                       Has(dead, q.cookie), "respOnLoggedOutSession"),
                                Len(OkIdpEvs(n)) > 0, "checkWithSuccessfulExchange"),
                         "outcome:" \o o)
-  /\ UNCHANGED <<now, sc, flt, presented, codes, idtok, rtl, latest, stored, gone, bound, attok>>
+  /\ UNCHANGED <<now, sc, flt, presented, codes, idtok, rtl, latest, stored, gone, bound, lastStored, attok>>
 
 BrowseEv ==
   /\ E.ev = "browse"
@@ -607,7 +639,7 @@ BrowseEv ==
                         (IF E.outcome # "ok" \/ ~(Has(br, E.b) /\ br[E.b].ok) THEN {"login-does-not-end-in-ok:" \o E.outcome} ELSE {})
                         \cup (IF Has(br, E.b) /\ br[E.b].authz > 1 THEN {"more-than-one-pass-through-the-provider"} ELSE {}), 0)
   /\ fired' = Bump(fired, "browse:" \o E.phase)
-  /\ UNCHANGED <<now, sc, flt, logins, presented, consumed, dead, codes, idtok, rtl, latest, lastUse, stored, gone, bound, attok, chk, drift>>
+  /\ UNCHANGED <<now, sc, flt, logins, presented, consumed, dead, codes, idtok, rtl, latest, lastUse, stored, gone, bound, lastStored, attok, chk, drift>>
 
 Next ==
   /\ l <= Len(Trace)
